@@ -459,6 +459,10 @@ func (buf *FetchMessageBuffer) populateItemData(item FetchItemData) error {
 func (c *Client) handleFetch(seqNum uint32) error {
 	dec := c.dec
 
+	if seqNum == 0 {
+		return fmt.Errorf("in message-data: FETCH with the invalid sequence number 0")
+	}
+
 	items := make(chan FetchItemData, 32)
 	defer close(items)
 
@@ -558,6 +562,9 @@ func (c *Client) handleFetch(seqNum uint32) error {
 		case "UID":
 			if !dec.ExpectSP() || !dec.ExpectUID(&uid) {
 				return dec.Err()
+			}
+			if uid == 0 {
+				return fmt.Errorf("in msg-att: invalid UID 0")
 			}
 
 			item = FetchItemDataUID{UID: uid}
